@@ -64,7 +64,10 @@ def main(tier, replay):
         "ProjMatrixElemsForOneBin, RelatedViewgrams on ProjDataInMemory, for generated geometries: cylindrical 8-16 detectors x 2-3 rings, "
         "span 1/3, view mashing, arc-corrected or not, TOF (5 bins or mashed to 1), BlocksOnCylindrical 12/16 detectors (TOF and non-TOF); "
         "images 5-9 voxels across (blocks 15/17) covering 50-100% of the field of view, 2R-1 / 2R-3 / 2R+1 planes (rows then contain planes "
-        "outside the image: z guard), z origin 0 / +-1 / +2 planes, square or x/y-anisotropic voxels (cylindrical worlds); 1-3 tangential "
+        "outside the image: z guard), z origin 0 / +-1 / +2 planes, square or x/y-anisotropic voxels (cylindrical worlds); in 5 of 8 worlds "
+        "(cylindrical, TOF, blocks) an index range whose FIRST PLANE IS NOT 0 - centred (-4..4), straddling (-2..6), all negative, "
+        "positive (1.., 3.., 7..) - built with VoxelsOnCartesianGrid(exam_info, IndexRange3D, origin, voxel_size), in a third of them with "
+        "0-2 extra columns/rows at either end of the x and y ranges; every operation and oracle below runs on these grids too; 1-3 tangential "
         "LORs, random symmetry flags, cylindrical/square FOV, detector-boundary option; cache on (per-bin branch) and off "
         "(explicit-symmetries branch). "
         "CORRESPONDENCE: the rows of a separate matrix object with the same settings (hex floats), the symmetry tables "
@@ -81,7 +84,17 @@ def main(tier, replay):
         "back_project(image,..); removal of the processor), the projectors handed out by ProjectorByBinPairUsingSeparateProjectors, "
         "(once build/fixes/C04-3 is in /repo) Presmoothing/Postsmoothing projectors as forward_project / back_project with the stencil as "
         "processor, and ProjMatrixElemsForOneBin::forward_project/back_project called directly on random rows (planes outside the image, "
-        "bins that come in with a value, data == 0). A float answer f is accepted iff |f - exact| <= 4(n+1)2^-24 M, M = sum|terms| and "
+        "bins that come in with a value, data == 0). "
+        "HISTORIES (ops mnew/mset/mdef/mget + the projection ops): 3 (thorough 12) histories - cylindrical non-TOF, TOF, span 3, blocks - in "
+        "which ONE ray-tracing matrix with separate forward/back projector (default cache: basic bins only), ONE "
+        "ProjectorByBinPairUsingProjMatrixByBin (every bin cached), one with the cache disabled and one interpolation matrix are set_up in "
+        "turn for grid 1, X, grid 1, Y, grid 1, Z, grid 1, ... with X,Y,Z drawn from: same size/other voxel size, z origin one plane off, "
+        "other size, same size/other first plane, fewer segments, axial range trimmed, tangential range trimmed, another scanner (ring "
+        "radius x1.25) with the same views and segments; after every set_up 12 rows are requested from the old matrix and answered by the "
+        "model's MatrixObj state machine (set_up / ray-tracing shortcut / cache lookup and insert in both cache modes; the fresh rows are "
+        "data), a subset and (2 of 3 steps) the whole data are forward and back projected by the OLD objects, and for one object per "
+        "step the Lean model answers these projections from the rows and symmetry tables of a FRESH matrix for that geometry (fwd S/F, "
+        "bsetup, bsub, bout, bstart). A float answer f is accepted iff |f - exact| <= 4(n+1)2^-24 M, M = sum|terms| and "
         "n = number of terms both computed by the model (same definitions run on absolute values / on 0-1 patterns; after a "
         "post-processor: |processor| applied to M, to n, plus 4). "
         "ORACLE on the implementation alone: projection = matrix product (both directions); <Ax,y>=<x,A'y> within "
@@ -95,9 +108,16 @@ def main(tier, replay):
         "in back_project, get_output idempotent, failing processor throws; SeparateProjectors pair = ProjMatrixByBin pair (bitwise) and "
         "adjoint; Presmoothing forward = projection of the smoothed image, Postsmoothing back = smoothed back projection, the two adjoint; "
         "row level: merge = sum, scaling, exact adjointness; "
+        "histories: set_up of an old object succeeds iff that of a fresh one does; rows, forward and back projection (subset and whole) of "
+        "the old objects = those of fresh objects BITWISE; = matrix product with fresh rows; adjointness (whole and subset) after the "
+        "history; on-the-fly projector (a fresh one and one set_up through the same history, bitwise equal) = matrix projector of object A; "
         "on-the-fly ray tracing vs matrix (1 LOR, same settings) with restrict_to_cylindrical_FOV true AND false (the latter through the "
         "parser), 4/6/8 and 6-20 views (multiples of 4, 4k+2; an odd number must be refused by set_up), odd/even image sizes, "
-        "2R-3/2R-1/2R+1 planes, z origin off by whole planes, anisotropic voxels, voxel z = ring spacing, span 1/3: whole data, subsets, "
+        "2R-3/2R-1/2R+1 planes, z origin off by whole planes, first plane not 0 and extra columns (half of the on-the-fly worlds; a fixed "
+        "probe decides whether the projector handles such grids: if it shows exactly the signature `planes of negative index ignored` "
+        "this is the known candidate on-the-fly-raytracing:image-first-plane-not-0 (repair build/fixes/C04-4.diff), grids with a "
+        "positive first plane are then not given to it and on those with a negative one only the whole-data comparison is made, "
+        "against the projection of the image without these planes), anisotropic voxels, voxel z = ring spacing, span 1/3: whole data, subsets, "
         "a smaller ProjData (vs its own whole-data projection and vs the matrix), a x2 pre-processor (bitwise), and for EVERY segment "
         "0..max a set of basic views (0, 1, V/4, V/2, 2 random) x {full range, random axial+tangential sub-range (5-argument overload), "
         "axial sub-range} + the 02c0a3d12 class + pre-filled viewgrams, with tolerance 1e-4 max(viewgram max, 0.05 max(A|x|)); bins whose "
@@ -115,6 +135,12 @@ def main(tier, replay):
         "(ProjDataInfo::operator>= admits nothing else for views/TOF; asymmetric segment ranges are not exercised)",
         "Presmoothing/Postsmoothing projectors do not use the image passed in / return zeros in the unrepaired tree: reported as known "
         "candidates, no differential for them until build/fixes/C04-3.diff is committed",
+        "histories: what the matrix type computes for a geometry and the symmetry operations are data for MatrixObj (the driver treats every "
+        "bin as basic and takes the row of a fresh matrix as `compute`); the theorems about MatrixObj assume coherent symmetries (basic bin "
+        "of a basic bin = itself, its operation = identity); the setters of the matrix parameters (which reset already_setup) and a change "
+        "of enable_cache / store_only_basic_bins_in_cache between set_ups are not part of the histories; x/y origin shifts are refused by the "
+        "matrix and not generated",
+        "on-the-fly projector on grids whose first plane is not 0: compared fully only once build/fixes/C04-4.diff is in /repo",
     ]
     if audit:
         vlib.proof_coverage(chk, audit, "cd lean && lake build StirVerif stirdriver && lake env lean ../build/out/Audit_C04.lean")
